@@ -66,6 +66,8 @@ Consume ==
     /\ LET e == Ev(tid)[l]
        IN s' = CASE e.e = "registry" -> OnRegistry(e) [] e.e = "lookup" -> OnLookup(e) [] e.e = "backref" -> OnBackRef(e)
                  [] e.e = "addfail" -> [s EXCEPT !.viol = @ \cup {"AddGivesEveryDeviceAnIdx"}]
+                 [] e.e = "refused" -> [s EXCEPT !.viol = Add(Add(@, e.raised, "MissingMandatoryReferenceRejected"),
+                                                              ~e.raised \/ e.unchanged, "RejectedAddLeavesModelUnchanged")]
                  [] e.e = "helpers" -> OnHelpers(e) [] e.e = "setup" -> OnSetup(e) [] OTHER -> s
     /\ l' = l + 1 /\ UNCHANGED tid
     /\ (l = Len(Ev(tid))) => PrintT(ToJson([tid |-> Traces[tid].meta.tid, viol |-> s'.viol, drift |-> s'.drift, n |-> Len(Ev(tid))]))
